@@ -257,6 +257,27 @@ theorem reply_core (A : AEAD) (hl : A.Lawful) (hs : A.Sized) (hdr uid : Bytes) (
     exact issued_opens A hl hs sc curKey curId nn hk hnn hnum (by omega) (by omega)
 
 
+/-- a cookie that decodes and opens is at least as long as the cookie `Encode` would write for
+    the session it opens to -/
+theorem opened_cookie_len (A : AEAD) (ho : A.OpenSized) (c0 : Bytes) (ec sc : Triple) (key : Bytes)
+    (hec : ecDecode c0 = .ok ec) (hsc : decryptCookie A ec key = .ok sc) :
+    60 + sc.x.length + sc.y.length ≤ c0.length := by
+  have h1 := decodeTLV_size _ _ _ c0 ec hec
+  unfold decryptCookie decryptCookieG at hsc
+  by_cases hk : keyOk key = true
+  · by_cases hn : ec.x.length = 16
+    · simp only [hk, Bool.not_true, Bool.false_eq_true, if_false, hn, ne_eq, not_true_eq_false, decide_false,
+        Bool.and_false, openC, bind, Res.bind] at hsc
+      cases hop : A.openF key ec.x ec.y none with
+      | some pt =>
+        rw [hop] at hsc
+        have h2 := decodeTLV_size _ _ _ pt sc hsc
+        have h3 := ho _ _ _ _ _ hop
+        omega
+      | none => simp [hop] at hsc
+    · simp [hk, hn] at hsc
+  · simp [hk] at hsc
+
 theorem processRequest_ok_inv (A : AEAD) (b key : Bytes) (d : Decoded) (cs : List Bytes)
     (h : processRequestG true A b key d = .ok cs) :
     32 ≤ d.uid.length ∧ noRoomForCookie d = false ∧ authenticateG true A b key d = .ok cs := by
@@ -275,18 +296,21 @@ theorem maxNumCookies_mono (u c : Nat) (h : 124 ≤ c) : maxNumCookies u c ≤ m
   · unfold pad4; omega
 
 /-- The listeners' NTS branch, from a request that passed every check to the reply. -/
-theorem serverReply_ok (A : AEAD) (hl : A.Lawful) (hs : A.Sized) (keys : Nat → Option Bytes) (curId : Nat) (curKey : Bytes)
+theorem serverReply_ok (A : AEAD) (hl : A.Lawful) (hs : A.Sized) (ho : A.OpenSized) (keys : Nat → Option Bytes) (curId : Nat) (curKey : Bytes)
     (b hdr rnd : Bytes) (d : Decoded) (c0 : Bytes) (ec sc : Triple) (key : Bytes) (cs : List Bytes)
     (hh : hdr.length = ntpPacketLen)
     (hd : decodePacket b = .ok d) (hc0 : firstCookie d = .ok c0) (hec : ecDecode c0 = .ok ec)
     (hkey : keys ec.num = some key) (hsc : decryptCookie A ec key = .ok sc)
     (hreq : processRequest A b sc.y d = .ok cs)
     (hx : sc.x.length = 32) (hy : sc.y.length = 32) (hnum : sc.num < 65536)
-    (hcur : keyOk curKey = true) (hc0len : 124 ≤ c0.length) :
+    (hcur : keyOk curKey = true) :
     ∃ r fresh, serverReply A keys curId curKey b hdr rnd = .ok r ∧ r.length ≤ maxPacketLen ∧ r.length % 4 = 0 ∧
       fresh.length = min (maxNumCookies d.uid.length 124) (cs.length + d.nph) ∧ 1 ≤ fresh.length ∧
       (d.uid.length % 4 = 0 → ∃ d', decodePacket r = .ok d' ∧ processResponse A r sc.x d' d.uid = .ok fresh) ∧
       ∀ f ∈ fresh, ∃ ec', ecDecode f = .ok ec' ∧ ec'.num = curId % 65536 ∧ decryptCookie A ec' curKey = .ok sc := by
+  have hc0len : 124 ≤ c0.length := by
+    have := opened_cookie_len A ho c0 ec sc key hec hsc
+    omega
   obtain ⟨hu32, hroom, hauth⟩ := processRequest_ok_inv A b sc.y d cs hreq
   obtain ⟨extra, hcs⟩ := authenticate_prefix A b sc.y d cs hauth
   obtain ⟨crest, hdc⟩ : ∃ crest, d.cookies = c0 :: crest := by
